@@ -3,6 +3,7 @@
    Statements of the machine-checked theorems this property's check relies on.  Each statement is
    spelled out here and proved from the lemma of the same name under `Peppi/` (generated once by
    `bin/mkprops.py`, then kept as source).  What is proved and what is partial: DESIGN.md §4. -/
+import Peppi.Lemmas.Unified
 import Peppi.Lemmas.C01A
 import Peppi.Lemmas.C01B
 import Peppi.Lemmas.C01C
@@ -11,6 +12,14 @@ import Peppi.Lemmas.PortMap
 import Peppi.PremisesViews
 set_option linter.unusedVariables false
 namespace Peppi.Props.C01
+
+/- from `Peppi.Lemmas.Unified` -/
+open Extracted in
+theorem C01_any (T : TextOracle) (r : Replay) (s : Start) (gk : Option GeckoBlocks) (h : r.WFAny T s gk)
+    (hmax : assertMaxVersion s.version = .ok ()) :
+    ∃ g, readSlp T {} (r.encodeAny s.version (portOccupancy s) gk) = .ok g ∧
+      writeSlp g = .ok (r.encodeAny s.version (portOccupancy s) gk) :=
+  _root_.Peppi.C01_any T r s gk h hmax
 
 /- from `Peppi.Lemmas.C01A` -/
 open Extracted in
